@@ -54,6 +54,32 @@ C19_MB1 == Closed1 => ReportAll(MakeBreak1Bad(C1), LAMBDA c :
 C19_MB2 == Closed2 => ReportAll(MakeBreak2Bad(C2), LAMBDA c :
    [prop |-> "C19", kind |-> "makebreak", comp |-> "set2", seq |-> c[1], result |-> c[2]])
 
+(* C19 after a history: the same two statements from every state the decoder can be in after ONE
+   complete key sequence (with a decoder that is back in its initial condition after every
+   sequence these are all behaviourally the initial state and are skipped; a decoder that keeps
+   something across sequences - a lookup memo, a latch - is re-examined from up to 40 of them) *)
+RECURSIVE EndOf(_, _, _)
+EndOf(Next(_, _), x, bs) == IF bs = <<>> \/ x = 0 THEN x ELSE EndOf(Next, Next(x, bs[1]), Tail(bs))
+After1(G, C, Next(_, _)) ==
+  LET ends == { EndOf(Next, 1, c[1]) : c \in C } \ {0}
+      fresh == { x \in ends : G[x].expanded /\ G[x].cls # G[1].cls }
+  IN  IF Cardinality(fresh) <= 40 THEN fresh
+      ELSE { x \in fresh : Cardinality({ y \in fresh : y < x }) < 40 }
+C19_Hist1 == Closed1 => \A x \in After1(G1, C1, N1) :
+   LET Cx == Complete(O1, N1, x, 3) IN
+   /\ ReportAll(SeqInjectiveWitness(Cx), LAMBDA e :
+        [prop |-> "C19", kind |-> "injective", comp |-> "set1", after |-> G1[x].access, event |-> e,
+         seqs |-> { c[1] : c \in { cc \in Cx : cc[2] = e } }])
+   /\ ReportAll(MakeBreak1Bad(Cx), LAMBDA c :
+        [prop |-> "C19", kind |-> "makebreak", comp |-> "set1", after |-> G1[x].access, seq |-> c[1], result |-> c[2]])
+C19_Hist2 == Closed2 => \A x \in After1(G2, C2, N2) :
+   LET Cx == Complete(O2, N2, x, 4) IN
+   /\ ReportAll(SeqInjectiveWitness(Cx), LAMBDA e :
+        [prop |-> "C19", kind |-> "injective", comp |-> "set2", after |-> G2[x].access, event |-> e,
+         seqs |-> { c[1] : c \in { cc \in Cx : cc[2] = e } }])
+   /\ ReportAll(MakeBreak2Bad(Cx), LAMBDA c :
+        [prop |-> "C19", kind |-> "makebreak", comp |-> "set2", after |-> G2[x].access, seq |-> c[1], result |-> c[2]])
+
 (* C13 *)
 C13_Fwd == (Closed1 /\ Closed2) => ReportAll(XlateForwardBad(O2, N2, 1, O1, N1, 1), LAMBDA x :
    [prop |-> "C13", kind |-> "xlate-forward", prefix |-> x[1], code2 |-> x[2], form |-> x[3],
@@ -72,6 +98,6 @@ ASSUME A1 == Note("@@S", [g1_states |-> Len(G1), g2_states |-> Len(G2),
                           closed1 |-> Closed1, closed2 |-> Closed2])
 (* evaluate all of them (each prints its violations), then fail if any failed *)
 Results == << C07_Resync1, C07_Resync2, C07_NoneRun1, C07_NoneRun2,
-              C19_Inj1, C19_Inj2, C19_MB1, C19_MB2, C13_Fwd, C13_Conv >>
+              C19_Inj1, C19_Inj2, C19_MB1, C19_MB2, C19_Hist1, C19_Hist2, C13_Fwd, C13_Conv >>
 ASSUME AllHold == \A k \in 1..Len(Results) : Results[k]
 =============================================================================
